@@ -1,5 +1,12 @@
 //! vx_enc: see /verif/harness/AGENTS-GUIDE.md; one module per property, dispatched on the property id.
+mod c25;
+mod c26;
+mod c26_file;
+mod c27;
+mod c27_file;
 mod c28;
+mod fio;
+mod val;
 
 use vcore::{machinery_error, Ctx};
 
@@ -7,6 +14,9 @@ fn main() {
     let ctx = Ctx::from_args();
     vcore::quiet_panics();
     let out: vcore::Outcome = match ctx.id.as_str() {
+        "C25" => c25::run(&ctx),
+        "C26" => c26::run(&ctx),
+        "C27" => c27::run(&ctx),
         "C28" => c28::run(&ctx),
         other => machinery_error(&format!("vx_enc does not implement {other}")),
     };
